@@ -156,6 +156,31 @@ def run(ctx):
         t = g.split(" ")
         if t[-5:] != ["e1", "F", "e1", "F", "e1"]:
             ctx.fail("property", "C19-read-failure", ln[:3000], "a failing io.Reader was not reported as a permanent error: ... %s" % " ".join(t[-8:]))
+    # ---- read failure at every offset while SKIPPING: the caller never steps in, so containers are crossed by the
+    #      skipper (text) / Discard (binary); the failure must still end the traversal with a permanent error ----
+    sk = []
+    for d in tdocs[: ctx.scale(40, 600)] + bdocs[: ctx.scale(20, 300)]:
+        n = len(d)
+        ks = range(0, n + 1) if n <= 90 else sorted(set([0, 4, n] + [rng.randint(0, n) for _ in range(20)]))
+        for k in ks:
+            many = " ".join(["N"] * (min(k, 300) + 3))        # more calls than the prefix can hold values
+            sk.append("brd 1 %s %s ER N ER" % (iongen.hx(d[:k]), many))
+            sk.append("brd 1 %s N SI N N SO %s ER N ER" % (iongen.hx(d[:k]), many))
+    got = run_go(sk)
+    nb = 0
+    for ln, g in zip(sk, got):
+        tk = g.split(" ")
+        why = None
+        if "panic" in tk or tk[0] in ("fatal", "timeout"):
+            why = "outcome " + tk[0]
+        elif tk[-1] != "e1" or tk[-2] != "F":
+            why = "after the source failed the reader reports %s" % " ".join(tk[-4:])
+        elif tk[-3] == "e0" and all(x == "F" for x in tk[-6:-3]):
+            why = "Next returned false with Err()==nil although the source had failed: " + " ".join(tk[-8:])
+        if why:
+            nb += 1
+            ctx.fail("property", "C19-read-failure-skipping", ln[:3000], why)
+    ctx.count("C19-read-failure-skipping", len(sk), sk[:3000], failures=nb, sample=(sk[5][:120] + " => " + got[5][:80]) if len(sk) > 5 else None)
     # ---- write budgets, binary ----
     seqs = []
     for f in forests[: ctx.scale(60, 1500)]:
